@@ -124,8 +124,60 @@ def _repop_replay():
             'observed': {'difference': d}}
 
 
+def _digest(res):
+    import hashlib
+    h = hashlib.sha256()
+    h.update(repr([int(x) for x in res.point_labels]).encode())
+    for m in res.markov_random_fields:
+        h.update(np.ascontiguousarray(np.asarray(m, float)).tobytes())
+    for f in ('label_assignment_cost', 'overall_log_likelihood', 'bayesian_information_criterion',
+              'calinski_harabasz_index'):
+        h.update(np.float64(getattr(res, f)).tobytes())
+    return h.hexdigest()
+
+
+def _fit_b():
+    import fast_ticc
+    os.environ.pop('CUPCAKE_ENABLE_MULTIPROCESSING', None)
+    np.random.seed(1)
+    random.seed(1)
+    return fast_ticc.ticc_labels(_data(2, per=25), window_size=2, num_clusters=2, iteration_limit=3, min_cluster_size=3,
+                                 sparsity_weight=0.1, label_switching_cost=5.0)
+
+
+def _hyper_history_replay(w):
+    """In this process: a fit with the witness's covariance floor on another shape, then fit B; in a fresh
+    process: fit B alone.  Bit-for-bit comparison of the complete results."""
+    import subprocess
+    import sys
+    import fast_ticc
+    inp = w.get('inputs') or {}
+    from .util import flt
+    eps = abs(flt(inp.get('eps_a', 1e-9)))
+    np.random.seed(3)
+    random.seed(3)
+    rng = np.random.default_rng(2)
+    other = np.concatenate([rng.standard_normal((30, 3)) + 6.0 * k for k in range(2)])
+    try:
+        fast_ticc.ticc_labels(other, window_size=3, num_clusters=2, iteration_limit=2, min_cluster_size=3,
+                              sparsity_weight=0.2, label_switching_cost=3.0, min_meaningful_covariance=eps)
+    except Exception:
+        pass
+    here = _digest(_fit_b())
+    p = subprocess.run([sys.executable, '-c', 'from replay.c14 import _fit_b, _digest; print("DIGEST", _digest(_fit_b()))'],
+                       capture_output=True, text=True, timeout=600)
+    fresh = [l.split()[1] for l in p.stdout.splitlines() if l.startswith('DIGEST')]
+    if not fresh:
+        return {'reproduced': False, 'signature': None, 'observed': {'fresh_run_failed': p.stderr[-300:]}}
+    bad = here != fresh[-1]
+    return {'reproduced': bad, 'signature': 'result-depends-on-earlier-calls' if bad else None,
+            'observed': {'earlier_call_floor': eps, 'after_history': here[:16], 'fresh_process': fresh[-1][:16]}}
+
+
 def replay(w):
     nt = w.get('notes') or {}
+    if nt.get('kind') == 'hyper_history':
+        return _hyper_history_replay(w)
     if nt.get('kind') == 'repopulating':
         return _repop_replay()
     if nt.get('kind') == 'cache':
@@ -153,7 +205,7 @@ def validate(witnesses):
     checked = agree = skipped = 0
     disagree = []
     ref = {}
-    budget = {'pool_size': 5, 'schedule': 2, 'cache': 3}
+    budget = {'pool_size': 5, 'schedule': 2, 'cache': 3, 'hyper_history': 2}
     for w in witnesses:
         nt = w.get('notes') or {}
         kind = nt.get('kind')
@@ -164,6 +216,9 @@ def validate(witnesses):
         try:
             if kind == 'cache':
                 r = _cache_replay(nt)
+                bad = r['observed'] if r['reproduced'] else None
+            elif kind == 'hyper_history':
+                r = _hyper_history_replay(w)
                 bad = r['observed'] if r['reproduced'] else None
             else:
                 K = int(nt.get('K', 2))
